@@ -247,9 +247,10 @@ class St:
 
 
 class Out:
-    __slots__ = ('kind', 'st', 'val')
+    __slots__ = ('kind', 'st', 'val', 'token')
 
     def __init__(self, kind, st, val=None):
+        self.token = None
         self.kind = kind  # 'ok' | 'ret' | 'raise' | 'brk' | 'cont'
         self.st = st
         self.val = val
